@@ -46,7 +46,7 @@ MESH_RANGES = [(r"mesh.*\]\[0\]$", -1.0, 1.0)]
 def surf_of(cfg, **kw):
     c = {k: v for k, v in cfg.items() if k in ("nx", "ny", "symmetry", "side", "model", "groundplane", "S_ref_type",
                                                "with_viscous", "with_wave", "struct_weight_relief",
-                                               "distributed_fuel_weight", "n_point_masses", "fem_origin")}
+                                               "distributed_fuel_weight", "n_point_masses", "fem_origin", "yshift")}
     if not c.get("symmetry", True):
         c.pop("side", None)
         if c.get("ny", 3) % 2 == 0:
@@ -72,11 +72,30 @@ def two_surfaces(cfg):
 
 # ------------------------------------------------------------------------------------------- geometry transformations
 
+def _sib(cfg):
+    """another configuration of the same kind: same names and switches, one more spanwise node"""
+    d = dict(cfg)
+    d["ny"] = cfg.get("ny", 3) + 1
+    return d
+
+
+def _twin(name, f, cfgs, ranges):
+    """iso.<name>: the isolation clause alone (C20), for the configurations of deriv.<name>"""
+    @job("iso." + name, ("C20",), cfgs=cfgs, ranges=ranges, cost=0.3)
+    def _g(env, **cfg):
+        env.only_isolation = True
+        f(env, **cfg)
+    return _g
+
+
 def _geo(name, path, opts, ranges=(), cfgs=None, cost=1.0, **dk):
-    @job("deriv." + name, ("C01", "C02", "C03"), cfgs=cfgs or product(shapes_1surf(), SYM_Q), ranges=ranges, cost=cost)
+    cfgs = cfgs or product(shapes_1surf(), SYM_Q)
+
+    @job("deriv." + name, ("C01", "C02", "C03"), cfgs=cfgs, ranges=ranges, cost=cost)
     def _f(env, **cfg):
         env.add_ranges(*MESH_RANGES)
-        derivative_contract(env, lambda: cls(path)(**opts(cfg)), **dk)
+        derivative_contract(env, lambda: cls(path)(**opts(cfg)), sibling=lambda: cls(path)(**opts(_sib(cfg))), **dk)
+    _twin(name, _f, cfgs, ranges)
     return _f
 
 
@@ -118,25 +137,38 @@ def _taper(env, **cfg):
 # ------------------------------------------------------------------------------------------- single-surface components
 
 def _surf(name, path, cfgs=None, ranges=(), cost=1.0, extra_opts=None, surf_kw=None, **dk):
-    @job("deriv." + name, ("C01", "C02", "C03"), cfgs=cfgs or product(shapes_1surf(), SYM_Q), ranges=ranges, cost=cost)
+    cfgs = cfgs or product(shapes_1surf(), SYM_Q)
+
+    @job("deriv." + name, ("C01", "C02", "C03"), cfgs=cfgs, ranges=ranges, cost=cost)
     def _f(env, **cfg):
         env.add_ranges(*MESH_RANGES)
-        s = surf_of(cfg, **(surf_kw or {}))
-        o = dict(surface=s)
-        if extra_opts:
-            o.update(extra_opts(cfg) if callable(extra_opts) else extra_opts)
-        derivative_contract(env, lambda: cls(path)(**o), **dk)
+
+        def opts(c):
+            o = dict(surface=surf_of(c, **(surf_kw or {})))
+            if extra_opts:
+                o.update(extra_opts(c) if callable(extra_opts) else extra_opts)
+            return o
+        o = opts(cfg)
+        derivative_contract(env, lambda: cls(path)(**o), sibling=lambda: cls(path)(**opts(_sib(cfg))), **dk)
+    _twin(name, _f, cfgs, ranges)
     return _f
 
 
 def _surfs(name, path, cfgs=None, ranges=(), cost=1.0, extra_opts=None, **dk):
-    @job("deriv." + name, ("C01", "C02", "C03"), cfgs=cfgs or MULTI, ranges=ranges, cost=cost)
+    cfgs = cfgs or MULTI
+
+    @job("deriv." + name, ("C01", "C02", "C03"), cfgs=cfgs, ranges=ranges, cost=cost)
     def _f(env, **cfg):
         env.add_ranges(*MESH_RANGES)
-        o = dict(surfaces=two_surfaces(cfg))
-        if extra_opts:
-            o.update(extra_opts(cfg) if callable(extra_opts) else extra_opts)
-        derivative_contract(env, lambda: cls(path)(**o), **dk)
+
+        def opts(c):
+            o = dict(surfaces=two_surfaces(c))
+            if extra_opts:
+                o.update(extra_opts(c) if callable(extra_opts) else extra_opts)
+            return o
+        o = opts(cfg)
+        derivative_contract(env, lambda: cls(path)(**o), sibling=lambda: cls(path)(**opts(_sib(cfg))), **dk)
+    _twin(name, _f, cfgs, ranges)
     return _f
 
 
